@@ -297,8 +297,10 @@ def describe(x):
         if isinstance(x, bool):
             return ("bool", x)
         # cohdl Bit / Value[bool] style results
-        return ("bool", bool(x))
-    bits = std.to_bits(x)
+        from cohdl import TypeQualifier
+        return ("bool", bool(TypeQualifier.decay(x)))
+    from cohdl import TypeQualifier
+    bits = TypeQualifier.decay(std.to_bits(x))  # results derived from a std.Variable are qualified temporaries
     s = str(bits)
     w = len(bits)
     raw = int(s, 2) if set(s) <= {"0", "1"} and len(s) == w else bits.unsigned.to_int()
